@@ -19,7 +19,7 @@ from skeletons import words as V
 MODULE = "checks.c11"
 MIN_LINE_LEN = 20  # documented default of semantic mode (DEFAULT_MIN_LINE_LEN)
 
-_END = re.compile(r"^[A-Za-z]*[a-z]{2}(?:[.?!]['\")]?|['\")][.?!])$")
+_END = re.compile(r"^.*[^\W\d_][^\W\d_A-Z](?:[.?!]['\"\u2019\u201d)]?|['\"\u2019\u201d)][.?!])$")
 
 
 def is_end(word: str) -> bool:
@@ -56,6 +56,9 @@ def cases(tier: str) -> list[dict[str, Any]]:
             ("quote-end", [[V.tok(0), V.tok(1) + '."'], [V.tok(2), V.tok(3) + "!"], [V.tok(4)]]),
             ("paren-end", [[V.tok(0), V.tok(1) + ".)"], [V.tok(2), V.tok(3) + "?"], [V.tok(4)]]),
             ("non-ends", [[V.tok(0), "e.g.", V.tok(1) + ":", V.tok(2) + ",", "1.", V.tok(3) + "."], [V.tok(4), V.tok(5)]]),
+            ("curly-quote-end", [[V.tok(0), V.tok(1) + ".\u2019"], [V.tok(2), V.tok(3) + "!\u201d"], [V.tok(4), V.tok(5) + "\u2019."], [V.tok(6)]]),
+            ("non-ascii-end", [[V.tok(0), "caf\u00e9."], [V.tok(1), "\u043c\u0438\u0440!"], [V.tok(2), "na\u00efve?"], [V.tok(3)]]),
+            ("upper-or-digit-non-end", [[V.tok(0), "ABC.", V.tok(1), "x1.", V.tok(2), "A.", V.tok(3) + "."], [V.tok(4)]]),
         ]:
             cs.append(dict(key=f"place/{ctx}/{name}", kind="place", ctx=ctx, sents=sents))
     # locality: edit sentence j (replace by fresh tokens, one word more or fewer)
